@@ -305,9 +305,9 @@ class GroupResult:
         return [p for p in self.props if p["description"].startswith("CANARY")]
 
 
-def build_binary(sc, g, extra_defines=()):
+def build_binary(sc, g, extra_defines=(), tagsuffix=None):
     """goto-cc / goto-instrument steps; returns path of the final goto binary."""
-    tag = re.sub(r"[^A-Za-z0-9_.=-]", "_", g.name) + ("-r" if extra_defines else "")
+    tag = re.sub(r"[^A-Za-z0-9_.=-]", "_", g.name) + (tagsuffix or ("-r" if extra_defines else ""))
     wd = os.path.join(sc.work, tag)
     os.makedirs(wd, exist_ok=True)
     objs = []
@@ -504,6 +504,8 @@ def _portfolio(g, binary, backends, timeout, props=None, trace=False, tagsuffix=
 
 def run_group(sc, g):
     res = GroupResult(g)
+    if os.environ.get("XRLV_DEBUG_TIMEOUT"):   # debugging aid only: never set by a registered command
+        g.timeout = min(g.timeout, int(os.environ["XRLV_DEBUG_TIMEOUT"]))
     try:
         binary = build_binary(sc, g)
     except Undecided as e:
@@ -572,6 +574,22 @@ def run_group(sc, g):
     else:
         winner, r3 = _portfolio(g, binary, g.backends, g.timeout, props=proof_ids)
         reasons += r3
+    if winner is None and g.restrict_retry:
+        # second refutation variant, only when no back end decided the real query: leaf outcomes symbolic, values concrete
+        try:
+            rb = build_binary(sc, g, extra_defines=["-D" + g.restrict_retry, "-DV_RESTRICT_OK"], tagsuffix="-ro")
+            g2 = Group(g.name, g.kind, g.entry, flags=g.flags + ["--bounds-check", "--pointer-check"], unwind=g.unwind, no_safety=True,
+                       object_bits=g.object_bits)
+            w2, r2 = _portfolio(g2, rb, ["sat"], min(g.timeout, 300), props=proof_ids, tagsuffix="-concrete-ok")
+            memfail = w2 is not None and any(p["status"] == "FAILURE" and re.search(r"\.(array_bounds|pointer_dereference)\.", p["property"]) for p in w2[1])
+            if w2 is not None and not memfail:
+                fails = {p["property"]: p for p in w2[1] if p["status"] == "FAILURE" and p["property"] in set(proof_ids)}
+                if fails:
+                    res.refuted = fails
+                    res.refute_binary = rb
+                    winner = ({"be": "sat(concrete leaf values, symbolic outcomes)", "cmd": ["cbmc", "(refutation pre-pass 2)"]}, list(fails.values()), 0.0)
+        except Undecided as e:
+            reasons.append("refutation pass 2: %s" % e)
     if cthread:
         cthread.join()
     if winner is None:
@@ -625,13 +643,13 @@ def run_group(sc, g):
     elif not res.obligations:
         res.status = "undecided"
         res.reason = "zero obligations generated (vacuous)"
-    elif dead:
-        res.status = "undecided"
-        res.reason = "vacuity: canary unreachable: " + ", ".join(p["description"] for p in dead)
     elif failed:
+        # a counterexample stands on its own: unreachable or undecided canaries only matter for a claimed proof
         res.status = "failed"
         if unknown:
             res.reason = "%d further obligations without a verdict" % len(unknown)
+        if dead:
+            res.reason = (res.reason + "; " if res.reason else "") + "canaries without a verdict: " + ", ".join(p["description"] for p in dead)
         # fetch counterexample traces, one --property at a time
         for p in failed[:6]:
             refuted = getattr(res, "refuted", None) or {}
@@ -643,6 +661,9 @@ def run_group(sc, g):
                 for q in w[1]:
                     if q["property"] == p["property"] and q.get("trace"):
                         p["trace"] = q["trace"]
+    elif dead:
+        res.status = "undecided"
+        res.reason = "vacuity: canary unreachable: " + ", ".join(p["description"] for p in dead)
     else:
         res.status = "proved"
     if g.loop_contracts:
